@@ -88,6 +88,8 @@ def step (s : St) (ws : List String) : Option (St × String) :=
   | "async" :: c :: "write" :: h :: _ =>
     let data := (bytesOfHex h).getD []
     some ({ rs := { s.rs with tasks := s.rs.tasks ++ [.asyncWrite c data] } }, "ok")
+  | "async" :: c :: "writev" :: h :: _ =>
+    some ({ rs := { s.rs with tasks := s.rs.tasks ++ [.asyncWritev c (parseHexSegs h)] } }, "ok")
   | "async" :: c :: "wake" :: _ => some ({ rs := { s.rs with tasks := s.rs.tasks ++ [.wake c] } }, "ok")
   | "async" :: c :: "close" :: _ => some ({ rs := { s.rs with tasks := s.rs.tasks ++ [.close c] } }, "ok")
   | "poll" :: rest | "drain" :: _ :: rest =>
